@@ -98,6 +98,15 @@ func (ex *Ex) lookupIdent(env *Env, name string) (SV, bool) {
 	}
 	fr := env.fr
 	w := ex.W
+	if name == "$n" && fr != nil && fr.CurLoop != nil {
+		for _, ins := range fr.CurLoop.Header.Instrs {
+			if phi, ok := ins.(*ssa.Phi); ok && phi.Comment == "rangeindex" {
+				if v, ok := st.regs[phi]; ok && v.T != nil {
+					return SV{T: Add(v.T, IntLit(1)), Ty: tInt}, true
+				}
+			}
+		}
+	}
 	if fr != nil && fr.LemmaVars != nil {
 		if v, ok := fr.LemmaVars[name]; ok {
 			return v, true
@@ -597,8 +606,6 @@ func (ex *Ex) trBinop(env *Env, e *Expr) (SV, error) {
 			switch {
 			case a.T.S.Eq(SIface) && b.T.S.Eq(SIface):
 				eq = IfaceEq(a.T, b.T)
-			case strings.HasPrefix(a.T.S.Name, "Slice$") && a.T.S.Eq(b.T.S):
-				eq = ex.seqEq(a, b)
 			case a.T.S.Eq(b.T.S):
 				eq = Eq(a.T, b.T)
 			default:
@@ -785,6 +792,11 @@ func (ex *Ex) trCall(env *Env, e *Expr) (SV, error) {
 			return SV{T: IntLit(at.Len()), Ty: tInt}, nil
 		}
 		return SV{}, env.errf(e, "len of %s", a.Ty)
+	case "seqEq":
+		if err := need(2); err != nil {
+			return SV{}, err
+		}
+		return SV{T: ex.seqEq(args[0], args[1]), Ty: tBool}, nil
 	case "hasPrefix":
 		return SV{T: App("str.prefixof", SBool, args[1].T, args[0].T), Ty: tBool}, nil
 	case "hasSuffix":
